@@ -5,7 +5,7 @@
    node alone; the graph is built by a C01/C02 factory from the extracted edges, the ontology is the
    C06 container.  Scope: well-formed documents (ASCII ids, alternate ids / xrefs that are CURIEs). *)
 From Coq Require Import String List Bool Arith ZArith Permutation.
-From Hpotk Require Import Base.Result Base.Str TermId.Model Graph.Model Ontology.Model Obographs.Model Obographs.Proofs.
+From Hpotk Require Import Base.Result Base.Str TermId.Model Graph.Model Ontology.Model Obographs.Model Obographs.Proofs Obographs.Version.
 Import ListNotations.
 
 (* the current terms are exactly the non-deprecated CLASS nodes with an OBO PURL identifier in a
@@ -55,3 +55,31 @@ Theorem C05_order_irrelevant : forall (full : bool) (f : factory) (P : list stri
   (forall t, In t (terms_of fullx (ontology_of l)) <-> In t (terms_of fullx (ontology_of l'))) /\
   (forall e, In e (ld_edges l) <-> In e (ld_edges l')).
 Proof. exact order_irrelevant. Qed.
+
+(* the version: the loaded ontology carries version_of(meta); for a 'version' entry that is the date
+   dddd-dd-dd of the LAST "/dddd-dd-dd/" in the string (whatever surrounds it), None when there is none;
+   otherwise the value of the FIRST basic property value with a pred ending in "#versionInfo" and a val;
+   None when the document has neither *)
+Theorem C05_version_loaded : forall (full : bool) (f : factory) (P : list string) (dc : doc) (l : loaded),
+  load full f P dc = Ok l -> ld_version l = version_of (d_meta dc).
+Proof. exact load_version. Qed.
+
+Theorem C05_version_from_iri : forall (m : gmeta) (v : string), gm_version m = Some v ->
+  forall o, version_of m = o <->
+    match o with
+    | Some d => is_dateb d = true /\ exists pre post, v = (pre ++ "/" ++ d ++ "/" ++ post)%string /\
+                  (forall pre' d' post', v = (pre' ++ "/" ++ d' ++ "/" ++ post')%string -> is_dateb d' = true -> String.length pre' <= String.length pre)
+    | None => forall pre d post, v = (pre ++ "/" ++ d ++ "/" ++ post)%string -> is_dateb d = false
+    end.
+Proof. exact version_spec. Qed.
+
+Theorem C05_version_from_property_values : forall (m : gmeta) (l : list bpv), gm_version m = None -> gm_bpvs m = Some l ->
+  match version_of m with
+  | Some v => exists l1 p l2, l = (l1 ++ (Some p, Some v) :: l2)%list /\ Io.Model.ssuffixb "#versionInfo" p = true /\
+                              forall b, In b l1 -> is_version_bpv b = false
+  | None => forall b, In b l -> is_version_bpv b = false
+  end.
+Proof. exact version_bpv_spec. Qed.
+
+Theorem C05_version_absent : forall (m : gmeta), gm_version m = None -> gm_bpvs m = None -> version_of m = None.
+Proof. exact version_absent. Qed.
